@@ -254,7 +254,7 @@ func (h *httproto) Unpack(m erpc.Message) error {
 	}
 	prefixBytes := make([]byte, 5, 128)
 	copy(prefixBytes, bb.B)
-	err = h.readLine(bb)
+	err = h.readLine(bb, size)
 	if err != nil {
 		return err
 	}
@@ -277,7 +277,7 @@ func (h *httproto) Unpack(m erpc.Message) error {
 			// TODO support
 			return errUnsupportHTTPCode
 		}
-		size, msg, err = h.unpack(m, bb)
+		size, msg, err = h.unpack(m, bb, len(firstLine))
 		if err != nil {
 			return err
 		}
@@ -308,7 +308,7 @@ func (h *httproto) Unpack(m erpc.Message) error {
 	if u.RawQuery != "" {
 		m.Meta().ParseBytes(goutil.StringToBytes(u.RawQuery))
 	}
-	size, msg, err = h.unpack(m, bb)
+	size, msg, err = h.unpack(m, bb, len(firstLine))
 	if err != nil {
 		return err
 	}
@@ -333,14 +333,18 @@ var (
 	errUnsupportHTTPCode  = errors.New("unsupport HTTP status code")
 )
 
-func (h *httproto) unpack(m erpc.Message, bb *utils.ByteBuffer) (size int, msg []byte, err error) {
+// unpack reads the header lines and the body. head is the number of bytes of this message
+// that are buffered already (the first line): the whole message, head and body, is charged
+// against the read limit.
+func (h *httproto) unpack(m erpc.Message, bb *utils.ByteBuffer, head int) (size int, msg []byte, err error) {
 	var bodySize int
 	var a [][]byte
 	for i := 0; true; i++ {
-		err = h.readLine(bb)
+		err = h.readLine(bb, head)
 		if err != nil {
 			return 0, nil, err
 		}
+		head += bb.Len()
 		if h.printMessage {
 			msg = append(msg, bb.B...)
 			msg = append(msg, '\r', '\n')
@@ -399,8 +403,8 @@ func (h *httproto) unpack(m erpc.Message, bb *utils.ByteBuffer) (size int, msg [
 	if bodySize <= 0 {
 		return size, msg, nil
 	}
-	// refuse a body larger than the read limit before buffering it
-	if uint64(bodySize) > uint64(erpc.GetReadLimit()) {
+	// refuse a message (head + body) larger than the read limit before buffering the body
+	if uint64(head)+uint64(bodySize) > uint64(erpc.GetReadLimit()) {
 		return 0, nil, socket.ErrExceedMessageSizeLimit
 	}
 	bb.ChangeLen(bodySize)
@@ -416,7 +420,10 @@ func (h *httproto) unpack(m erpc.Message, bb *utils.ByteBuffer) (size int, msg [
 	return size, msg, err
 }
 
-func (h *httproto) readLine(bb *utils.ByteBuffer) error {
+// readLine reads one line into bb, without its line end. head is the number of bytes of this
+// message that are buffered already: the line is refused as soon as it takes the message to
+// the read limit.
+func (h *httproto) readLine(bb *utils.ByteBuffer, head int) error {
 	bb.Reset()
 	oneByte := make([]byte, 1)
 	var err error
@@ -431,6 +438,9 @@ func (h *httproto) readLine(bb *utils.ByteBuffer) error {
 				bb.B = bb.B[:n-1]
 			}
 			return nil
+		}
+		if uint64(head)+uint64(bb.Len()) >= uint64(erpc.GetReadLimit()) {
+			return socket.ErrExceedMessageSizeLimit
 		}
 		bb.Write(oneByte)
 	}
